@@ -537,7 +537,9 @@ func (st *Runtime) executeList(list *ListNode) (returnValue reflect.Value) {
 						}
 					}
 					if valVarSlot < 0 {
-						st.context = rangeValue
+						// like a range variable (see resolve), '.' is the element itself,
+						// not the interface{} box a []interface{} or map[K]interface{} keeps it in
+						st.context = indirectEface(rangeValue)
 					}
 					returnValue = st.executeList(node.List)
 					indexValue, rangeValue, end = ranger.Range()
